@@ -261,6 +261,11 @@ def like_combine(pyhf, pre, right, out, exp_spec, fails):
             fails.append(("parameters of the combined model are not the union by name of the inputs' parameters",
                           {"out": mo.config.par_order, "left": ml.config.par_order, "right": mr.config.par_order}, ["like:parset"]))
             return
+        if shared_stat:
+            # a staterror NAME carried by channels of both workspaces becomes one parameter set with a component per covered
+            # bin of the combination (pyhf semantics): "parameters identified by name" does not determine the component
+            # correspondence, so the sum clause is not evaluated (counted as skipped)
+            raise Skip("staterror name shared between channels of the two workspaces")
         do, dl, dr = (w.data(m, include_auxdata=False) for w, m in ((out, mo), (pre, ml), (right, mr)))
         for p in range(3):
             po, pl, pr = pars_of(pyhf, mo, to_types, p), pars_of(pyhf, ml, tl_types, p), pars_of(pyhf, mr, tr_types, p)
